@@ -1430,7 +1430,7 @@ class AggregateFunction(Function):
     @builder
     def filter(self, *filters: Any) -> AnalyticFunction:  # type:ignore[return]
         self._include_filter = True
-        self._filters += filters
+        self._filters = [*self._filters, *filters]
 
     def get_filter_sql(self, ctx: SqlContext) -> str:  # type:ignore[return]
         if self._include_filter:
@@ -1463,12 +1463,12 @@ class AnalyticFunction(AggregateFunction):
     @builder
     def over(self, *terms: Any) -> "Self":  # type:ignore[return]
         self._include_over = True
-        self._partition += terms
+        self._partition = [*self._partition, *terms]
 
     @builder
     def orderby(self, *terms: Any, **kwargs: Any) -> "Self":  # type:ignore[return]
         self._include_over = True
-        self._orderbys += [(term, kwargs.get("order")) for term in terms]
+        self._orderbys = [*self._orderbys, *[(term, kwargs.get("order")) for term in terms]]
 
     def _orderby_field(self, field: Field, orient: Order | None, ctx: SqlContext) -> str:
         if orient is None:
